@@ -225,6 +225,20 @@ class BeltStore(Store):
                 #print(f"At {self.env.now:.2f}, Reservation failed for {self.env.active_process} "
                 #     f"on {self}. Store is full.")
     
+    def would_admit(self):
+        """
+        True iff a `reserve_put` issued at this instant would be granted at once.
+        Dry run of `_do_reserve_put` with a throw-away event; the store is left unchanged.
+        """
+        if self.reserve_put_queue:
+            return False  # waiting requests are served first
+        probe = self.env.event()
+        self._do_reserve_put(probe)
+        if probe in self.reservations_put:
+            self.reservations_put.remove(probe)
+            return True
+        return False
+
     def reserve_put_cancel(self, put_event_to_cancel):
       """
         Cancel a previously made `reserve_put` request.
